@@ -23,7 +23,8 @@ import (
 // Case: a set of programs (already renamed so that their global names are their own) that
 // run simultaneously on one environment, each repeated Reps times.
 type Case struct {
-	Std    []bool // program i is a hand-written standard-library user (not screened by the reference interpreter)
+	Std    []bool        // program i is a hand-written standard-library user (not screened by the reference interpreter)
+	Expect map[int]val.V `json:",omitempty"` // hand-written programs whose final value is known by construction
 	Progs  [][]val.V
 	Reps   int
 	Writer bool // one more evaluation keeps re-defining a shared global to internally consistent values
@@ -112,10 +113,26 @@ func stdlibUser(t *rapid.T, i int) []val.V {
 	return forms
 }
 
+// spawnLoop: a self tail-recursive loop that starts one future per iteration; each future reads the
+// loop parameter only after a short sleep, i.e. when the loop has long moved on
+func spawnLoop(i int) ([]val.V, val.V) {
+	p := fmt.Sprintf("t%d_", i)
+	base := 10 * (i + 1)
+	src := fmt.Sprintf("(def %sspawn (fn (k acc) (if (< k 4) (%sspawn (+ k 1) (cons (future (do (sleep 3) (+ %d k))) acc)) acc))) (map deref (%sspawn 0 (list)))", p, p, base, p)
+	return box.ParseForms(src), val.L(val.I(base+3), val.I(base+2), val.I(base+1), val.I(base))
+}
+
 func genCase(t *rapid.T) Case {
-	c := Case{Reps: 1 + gen.Uniform(t, "reps", 6), Writer: gen.Uniform(t, "writer", 2) == 0}
+	c := Case{Reps: 1 + gen.Uniform(t, "reps", 6), Writer: gen.Uniform(t, "writer", 2) == 0, Expect: map[int]val.V{}}
 	n := 2 + gen.Uniform(t, "nprogs", 9)
 	for i := 0; i < n; i++ {
+		if gen.Uniform(t, "spawn", 8) == 0 {
+			forms, want := spawnLoop(i)
+			c.Progs = append(c.Progs, forms)
+			c.Std = append(c.Std, true)
+			c.Expect[i] = want
+			continue
+		}
 		if gen.Uniform(t, "std", 3) == 0 {
 			c.Progs = append(c.Progs, stdlibUser(t, i))
 			c.Std = append(c.Std, true)
@@ -242,6 +259,9 @@ func check(c Case) pbt.Verdict {
 			return pbt.Verdict{Excluded: "solo-panics(C04)"}
 		}
 		solo[i] = o
+		if want, ok := c.Expect[i]; ok && (o.isErr || !val.Eq(o.v, want)) {
+			return pbt.Failf("futures-see-later-bindings", "program %d, run alone, must give %s (each future started by the loop reads the binding of ITS iteration) but gives {%s}\n%s", i, val.Canon(want), o, progText(p))
+		}
 	}
 	// together: one environment, all programs at once, each repeated
 	e, tr := newEnv(n)
